@@ -38,6 +38,7 @@
 #include "clang/Tooling/CommonOptionsParser.h"
 #include "clang/Tooling/Tooling.h"
 #include "llvm/Support/CommandLine.h"
+#include "llvm/ADT/SmallString.h"
 #include "llvm/Support/JSON.h"
 #include "llvm/Support/raw_ostream.h"
 
@@ -566,6 +567,30 @@ public:
             llvm::json::Object GO;
             GO["type"] = tyStr(VD->getType());
             GO["loc"] = locStr(VD->getLocation());
+            // constant initialiser, looking through std::atomic<T>{c} / T{c}
+            {
+                const VarDecl* Def = nullptr;
+                if (const Expr* In = VD->getAnyInitializer(Def)) {
+                    const Expr* E = In->IgnoreImplicit();
+                    for (int hop = 0; hop < 4 && E; ++hop) {
+                        if (auto* CE = dyn_cast<CXXConstructExpr>(E)) {
+                            if (CE->getNumArgs() != 1) break;
+                            E = CE->getArg(0)->IgnoreImplicit();
+                        } else if (auto* IL = dyn_cast<InitListExpr>(E)) {
+                            if (IL->getNumInits() != 1) break;
+                            E = IL->getInit(0)->IgnoreImplicit();
+                        } else if (auto* FC = dyn_cast<CXXFunctionalCastExpr>(E)) {
+                            E = FC->getSubExpr()->IgnoreImplicit();
+                        } else break;
+                    }
+                    Expr::EvalResult R;
+                    if (E && !E->isValueDependent() && E->EvaluateAsInt(R, Ctx)) {
+                        llvm::SmallString<32> Str;
+                        R.Val.getInt().toString(Str, 10);
+                        GO["init_cv"] = std::string(Str.str());
+                    }
+                }
+            }
             Gs[qname(VD)] = std::move(GO);
         }
         Top["globals"] = std::move(Gs);
